@@ -1,6 +1,8 @@
 import Driver.Params
+import Driver.Pool
 
 def main (args : List String) : IO UInt32 := do
   match args with
   | ["params"] => Driver.Params.main; return 0
+  | ["pool"] => Driver.Pool.main; return 0
   | _ => IO.eprintln "usage: zvdriver <model>"; return 2
